@@ -147,7 +147,7 @@ VARIANTS = {
     # name: (cmake build type, extra compile flags, extra link flags)
     "rel": ("Release", "-O1 -g0 -UNDEBUG", ""),
     "asan": ("Debug", "-O0 -g1 -fno-inline -fno-omit-frame-pointer -fsanitize=address,undefined "
-             "-fno-sanitize=vptr,alignment -fno-sanitize-recover=undefined",
+             "-fno-sanitize=vptr,alignment,shift-base -fno-sanitize-recover=undefined",
              "-fsanitize=address,undefined"),
     "tsan": ("Debug", "-O1 -g1 -fno-omit-frame-pointer -fsanitize=thread", "-fsanitize=thread"),
 }
@@ -167,8 +167,12 @@ def build_lib(variant="rel", log=None):
     bt, cflags, _ = VARIANTS[variant]
     d = lib_dir(variant)
     with Lock("lib-" + variant):
+        stamp = os.path.join(d, ".verif-flags")
+        if os.path.exists(stamp) and open(stamp).read() != bt + cflags:
+            shutil.rmtree(d, ignore_errors=True)
         if not os.path.exists(os.path.join(d, "build.ninja")):
             os.makedirs(d, exist_ok=True)
+            open(stamp, "w").write(bt + cflags)
             flags = "-D%s %s" % (GUARD, cflags)
             rc, out, err = sh(["cmake", "-G", "Ninja", "-S", REPO, "-B", d,
                                "-DTESTING=OFF", "-DWITH_BACKWARD=OFF", "-DWERROR=OFF",
